@@ -4,7 +4,7 @@ from lib import histprops as P
 
 
 def gen(rng, tier):
-    n = 300 if tier == "quick" else 12000
+    n = 2000 if tier == "quick" else 40000
     return [G.gen_history(rng, "x%d" % i, profile="conflict", probe_p=0.1, gc_p=0.04, nkeys=rng.randint(1, 3))
             for i in range(n)]
 
